@@ -119,7 +119,9 @@ class C19(Prop):
     build_flags = ("-race",)   # own binary (cmd/prom); a data race makes the harness exit 66
     sizes = {"quick": 1500, "thorough": 20000}
     gen_names = ("g_prom_", "prometheus.go", "GenProm")
-    rule = ("histories of 1..8 sessions (4..40 groups of steps, 15% of the groups hold 2..5 steps on distinct sessions that are "
+    rule = ("thorough tier: first one long-running history (25 sessions submit 1100 events of 1100 different kinds in 44 rounds, "
+            "end, and a later session submits the first and the last kind again: no per-kind counter may have been dropped); "
+            "histories of 1..8 sessions (4..40 groups of steps, 15% of the groups hold 2..5 steps on distinct sessions that are "
             "injected concurrently) through the real NewPrometheusMiddleware with a fresh registry per case: start, end "
             "(inner handler returns / context cancelled / recv channel closed), client messages REQ CLOSE EVENT COUNT AUTH "
             "and an unknown type, server messages CLOSED EOSE EVENT OK NOTICE COUNT AUTH and an unknown type, subscription "
